@@ -8,10 +8,10 @@ from sa.calls import Resolver
 from sa.core import AnalysisError, Repo, Report, call_name, kwarg, parent, unparse, walk_no_nested
 from sa.selftest import Edit, Variant
 
-from sa.texts import T as _T
+from sa.texts import T as _TX
 
-EXPLANATION = _T["C08"]["explanation"] + " Not decided: " + _T["C08"]["not_decided"] + "."
-ASSUMPTIONS = _T["C08"]["assumptions"]
+EXPLANATION = _TX["C08"]["explanation"] + " Not decided: " + _TX["C08"]["not_decided"] + "."
+ASSUMPTIONS = _TX["C08"]["assumptions"]
 P = "C08"
 
 
